@@ -1,6 +1,7 @@
 import KinModel.Drv.Util
 import KinModel.RequestFlow
 import KinModel.RequestHistory
+import KinModel.RequestOne
 import KinModel.Style
 import KinModel.Body
 open Lean
@@ -63,6 +64,18 @@ def insertQ (n : Style.Str) : List (Style.Str × List Style.Str) → List (Style
 def wholeQuery (ps : List Json) : List (Style.Str × List Style.Str) :=
   ps.foldl (fun q j => if getStr j "in" == "query" && getBool j "sent" then insertQ (getStr j "name").toList q else q) []
 
+/-- the ONE request of the case, as the Go runner builds it (`c07Request`): path values `5`, the query, a header / a
+cookie `5` per parameter sent; with `noise` a header and a cookie no parameter names and, behind every cookie sent, a
+second cookie of the same name with the value `99` (above both maxima) -/
+def oneRequest (noise : Bool) (ps : List Json) : RequestOne.HttpReq :=
+  let sentIn (loc : String) := ps.filter (fun j => getStr j "in" == loc && getBool j "sent")
+  let cookies := (sentIn "cookie").map (fun j => ((getStr j "name").toList, ['5']))
+  { pathParams := (ps.filter (fun j => getStr j "in" == "path")).map (fun j => ((getStr j "name").toList, ['5'])),
+    query := wholeQuery ps,
+    headers := (sentIn "header").map (fun j => (RequestOne.canonHeader (getStr j "name").toList, [['5']])) ++
+      (if noise then [("X-Other".toList, [['1']])] else []),
+    cookies := cookies ++ (if noise then ("zz".toList, ['1']) :: cookies.map (fun kv => (kv.1, ['9', '9'])) else []) }
+
 def bodyByC06 (bf : BodyFacts) : Bool :=
   let need := if bf.valid then "a" else "b"
   let schema := Body.RS.leaf (some .object) false false false 0 none [] [need.toList] none none
@@ -114,8 +127,11 @@ def handle (j : Json) : Json :=
   let uses := (securityList op).flatten
   let allJ := (getArr j "pathParams") ++ (getArr j "opParams")
   let q := wholeQuery allJ
+  let one := oneRequest (getBool j "noise") allJ
   let composeAgree :=
     allJ.all (fun pj => (Style.validateParameter (styleParam pj) (styleReq q pj) == .accept) == (parseFacts pj).ok) &&
+    -- the same through the views projected from the one request of the case
+    allJ.all (fun pj => (Style.validateParameter (styleParam pj) (RequestOne.view one (styleParam pj)) == .accept) == (parseFacts pj).ok) &&
     (!hasBody || bodyByC06 bf == bf.ok)
   let build := getD j "build" Json.null
   let branches :=
@@ -145,6 +161,8 @@ def handle (j : Json) : Json :=
     (if getStr build "doc" == "loaded" then ["build.doc.loaded"] else []) ++
     (if getBool j "authReadsBody" && !log.isEmpty then ["auth.readsbody"] else []) ++
     (if getBool j "optionsNil" then ["opt.nil"] else []) ++
+    (if getBool j "noise" then ["req.noise"] else []) ++
+    (if getBool j "noise" && one.cookies.length > 1 then ["req.noise.shadowed-cookie"] else []) ++
     (if calls.length > 1 then ["hist"] else []) ++
     (if calls.length > 2 then ["hist.long"] else []) ++
     (if histDiffer then ["hist.differ"] else []) ++
